@@ -275,6 +275,11 @@ func (d *Dispatcher) addPeer(
 		pstats = ps
 	}
 
+	// The bitfield comes from the remote peer's handshake.
+	if i, ok := b.NextSet(uint(d.torrent.NumPieces())); ok {
+		return nil, fmt.Errorf("peer bitfield has piece %d set, torrent has %d pieces", i, d.torrent.NumPieces())
+	}
+
 	p := newPeer(peerID, isPeerOrigin, b, messages, d.clk, pstats)
 	if _, ok := d.peers.LoadOrStore(peerID, p); ok {
 		return nil, errors.New("peer already exists")
@@ -495,14 +500,28 @@ func (d *Dispatcher) feed(p *peer) {
 }
 
 func (d *Dispatcher) dispatch(p *peer, msg *conn.Message) error {
+	// A remote peer may send a message without the body its type announces.
+	errNoBody := fmt.Errorf("message of type %d without body", msg.Message.Type)
 	switch msg.Message.Type {
 	case p2p.Message_ERROR:
+		if msg.Message.Error == nil {
+			return errNoBody
+		}
 		d.handleError(p, msg.Message.Error)
 	case p2p.Message_ANNOUCE_PIECE:
+		if msg.Message.AnnouncePiece == nil {
+			return errNoBody
+		}
 		d.handleAnnouncePiece(p, msg.Message.AnnouncePiece)
 	case p2p.Message_PIECE_REQUEST:
+		if msg.Message.PieceRequest == nil {
+			return errNoBody
+		}
 		d.handlePieceRequest(p, msg.Message.PieceRequest)
 	case p2p.Message_PIECE_PAYLOAD:
+		if msg.Message.PiecePayload == nil || msg.Payload == nil {
+			return errNoBody
+		}
 		d.handlePiecePayload(p, msg.Message.PiecePayload, msg.Payload)
 	case p2p.Message_CANCEL_PIECE:
 		d.handleCancelPiece(p, msg.Message.CancelPiece)
@@ -525,8 +544,8 @@ func (d *Dispatcher) handleError(p *peer, msg *p2p.ErrorMessage) {
 }
 
 func (d *Dispatcher) handleAnnouncePiece(p *peer, msg *p2p.AnnouncePieceMessage) {
-	if int(msg.Index) >= d.torrent.NumPieces() {
-		d.log().Errorf("Announce piece out of bounds: %d >= %d", msg.Index, d.torrent.NumPieces())
+	if msg.Index < 0 || int(msg.Index) >= d.torrent.NumPieces() {
+		d.log().Errorf("Announce piece out of bounds: %d not in [0, %d)", msg.Index, d.torrent.NumPieces())
 		return
 	}
 	i := int(msg.Index)
